@@ -76,7 +76,7 @@ func methodOf(i int) string {
 	return "POST"
 }
 
-var c07Extras = []string{"/s/a", "/s/c", "/zz", "/a/zz", "/{zz}", "/a/{zz}", "/*{zz}", "/a/b/zz", "zz.b/", "/ab/zz/{q}"}
+var c07Extras = []string{"b.c/zz", "a.b.c/zz", "a.b.c.d/", "/s/a", "/s/c", "/zz", "/a/zz", "/{zz}", "/a/{zz}", "/*{zz}", "/a/b/zz", "zz.b/", "/ab/zz/{q}"}
 
 type pairState struct {
 	set  RouteSet
